@@ -100,7 +100,7 @@ def _apy(rate) -> Fraction:
 
 
 READS_ALL = ["single", "supplies", "borrows", "supplies_value", "borrows_value", "collateral_value", "health_factor", "balance", "all", "max_withdraw", "max_borrow"]
-READS_QUICK = ["single", "supplies", "health_factor", "all", "max_withdraw"]
+READS_QUICK = ["single", "health_factor", "all", "max_withdraw"]
 READS = list(READS_QUICK)
 
 
@@ -161,6 +161,8 @@ def alphabet(world, max_writes):
         out.append(Op("w.supply[USDC,C]", write(lambda: m.supply(U, Decimal(3000), True)), False, "supply"))
         out.append(Op("w.supply[USDT,N]", write(lambda: m.supply(T, Decimal(1000), False)), False, "supply"))
         out.append(Op("w.supply[WETH,N-mismatch]", write(lambda: m.supply(W, Decimal(1), False)), True, "supply"))
+        # more than the wallet holds, of a token that has no supply yet: refused by the wallet
+        out.append(Op("w.supply[DAI,more-than-wallet]", write(lambda: m.supply(D, Decimal(10**7), True)), True, "supply"))
         if W in m._supplies:
             out.append(Op("w.withdraw[WETH,part]", write(lambda: m.withdraw(W, Decimal("0.25"))), False, "withdraw"))
             out.append(Op("w.withdraw[WETH,None]", write(lambda: m.withdraw(W)), True, "withdraw"))
